@@ -27,7 +27,7 @@ IsSetHunk(h)  == ~h.merge /\ h.path # <<>> /\ LastElem(h).k = "set"
 IsBagHunk(h)  == ~h.merge /\ h.path # <<>> /\ LastElem(h).k = "mset"
 IsValueHunk(h) == ~IsListHunk(h) /\ ~IsSetHunk(h) /\ ~IsBagHunk(h)    \* key / root / keyed-member value
 
-NonVoid(s) == SelectSeq(s, LAMBDA x : ~IsVoid(x))
+NonVoid(s) == NonVoidSeq(s)
 
 (* ---------------------------------------------------------------------- *)
 (* C01 on the model: sequential application reproduces b.                 *)
